@@ -219,13 +219,13 @@ func (s *Sim) MakeCand(via int, proposerGenesisIdx int, drop int, invalid string
 		total := lv.TotalVotingPower()
 		var have int64
 		for i, sg := range commit.Signatures {
-			if !sg.Absent() {
+			if sg.ForBlock() {
 				_, v := lv.GetByIndex(uint32(i))
 				have += v.VotingPower
 			}
 		}
 		for i := len(commit.Signatures) - 1; i >= 0 && drop > 0; i-- {
-			if commit.Signatures[i].Absent() {
+			if !commit.Signatures[i].ForBlock() {
 				continue
 			}
 			_, v := lv.GetByIndex(uint32(i))
